@@ -3,7 +3,7 @@
 set -u
 PATCH=$1; PROP=$2; TIER=${3:-quick}
 if [ -n "$(git -C /repo status --porcelain)" ]; then echo "/repo is dirty, refusing"; exit 2; fi
-git -C /repo apply --3way "$PATCH" 2>/dev/null || git -C /repo apply "$PATCH" || { echo "patch does not apply"; git -C /repo checkout -- .; exit 2; }
+git -C /repo apply "$PATCH" 2>/dev/null || git -C /repo apply --3way "$PATCH" 2>/dev/null || { echo "patch does not apply"; git -C /repo reset -q --hard HEAD; exit 2; }
 git -C /repo reset -q
 cd /verif && ./check "$PROP" "$TIER"; RC=$?
 git -C /repo checkout -- .
